@@ -746,3 +746,81 @@ def run_lcase(case):
             ob = ON({'remove': 'keep'}.get(k, k), [ON("raise", [oexn(e)])])
         out.append(ON("op", [ob, snapshot(cx, doc['b'])]))
     return ON("l", out)
+
+
+# ----------------------------------------------------------------------------- builder histories (C15)
+class NamedPred:
+    """a user predicate with a fixed repr, so that str(path) is canonical"""
+
+    def __init__(self, rep, fn):
+        self.rep, self.fn = rep, fn
+
+    def __call__(self, m):
+        return self.fn(m)
+
+    def __repr__(self):
+        return self.rep
+
+    __str__ = __repr__
+
+
+def ext_expr(cx, e, s):
+    k = s[0]
+    if k == 'attr':
+        return getattr(e, s[1])
+    if k == 'item':
+        return e[s[1]]
+    if k == 'pred':
+        return e[NamedPred(s[1], make_user(cx, s[2]))]
+    return _build_path(cx, [s], root=e)
+
+
+def run_bcase(case):
+    cx = Ctx()
+    doc = case['doc']
+    cx.label(doc)
+    exprs = []
+    out = []
+
+    def strs():
+        res = []
+        for e in exprs:
+            a, b = str(e), repr(e)
+            res.append(OS(a if a == b else "STR-REPR-DIFFER:%s|%s" % (a, b)))
+        return ON("strs", res)
+
+    for op in case['ops']:
+        k = op[0]
+        try:
+            if k == 'new':
+                exprs.append(pathd if op[1] else path)
+                ob = ON("new")
+            elif k == 'ext':
+                if op[1] >= len(exprs):
+                    ob = ON("skip")
+                else:
+                    exprs.append(ext_expr(cx, exprs[op[1]], op[2]))
+                    ob = ON("ext")
+            elif k == 'find':
+                if op[1] >= len(exprs):
+                    ob = ON("skip")
+                else:
+                    rs = []
+                    try:
+                        n = 0
+                        for m in find_matches(exprs[op[1]], doc):
+                            rs.append(ON("result", [mref(cx, m)]))
+                            n += 1
+                            if n >= 200:
+                                rs.append(ON("cap"))
+                                break
+                    except Exception as e:  # noqa
+                        rs.append(ON("raise", [oexn(e)]))
+                    ob = ON("find", rs)
+            else:
+                raise ValueError(k)
+        except Exception as e:  # noqa
+            ob = ON("raise", [oexn(e)])
+        cx.drain()
+        out.append(ON("op", [ob, strs()]))
+    return ON("b", out)
